@@ -157,6 +157,7 @@ type instance struct {
 	cmd    *exec.Cmd
 	done   chan struct{}
 	srv    *chtcp.Server
+	stdin  io.WriteCloser
 	base   string
 	logf   string
 	routes []route
@@ -221,6 +222,9 @@ func (in *instance) stop() {
 		case <-time.After(5 * time.Second):
 		}
 	}
+	if in.stdin != nil {
+		in.stdin.Close()
+	}
 	if in.srv != nil {
 		in.srv.Close()
 	}
@@ -275,7 +279,7 @@ func startOnce(c *run.Ctx, bin string, cfg instCfg) (in *instance, retry bool) {
 	env = append(env,
 		"MODE="+cfg.Mode, "QRYN_LOGIN="+cfg.Login, "QRYN_PASSWORD="+cfg.Pass,
 		"key=true", // boolEnv reads the variable literally named `key`: skips initDB
-		"VERIF_NO_DB_HEALTHCHECK=1", "VERIF_ROUTES_OUT="+routesOut,
+		"VERIF_NO_DB_HEALTHCHECK=1", "VERIF_ROUTES_OUT="+routesOut, "VERIF_EXIT_ON_STDIN_EOF=1",
 		"CLICKHOUSE_SERVER=127.0.0.1", fmt.Sprintf("CLICKHOUSE_PORT=%d", srv.Port()), "CLICKHOUSE_DB=qryn",
 		"HOST=127.0.0.1", fmt.Sprintf("PORT=%d", port))
 	if cfg.Cors != "" {
@@ -285,6 +289,10 @@ func startOnce(c *run.Ctx, bin string, cfg instCfg) (in *instance, retry bool) {
 	lf, _ := os.Create(in.logf)
 	cmd.Stdout, cmd.Stderr = lf, lf
 	cmd.SysProcAttr = &syscall.SysProcAttr{Setpgid: true}
+	// the binary exits when this pipe closes, i.e. also when this process is killed
+	if in.stdin, err = cmd.StdinPipe(); err != nil {
+		c.Note("stdin pipe: " + err.Error())
+	}
 	if err := cmd.Start(); err != nil {
 		lf.Close()
 		srv.Close()
@@ -699,14 +707,17 @@ func runInstance(c *run.Ctx, bin string, cfg instCfg, flt *filter, st *stats, ro
 		cls = cls[:quickClasses]
 		cbs = combos[:2]
 	}
-	failed := map[string]map[string]failure{} // rule -> "tpl|method|class" -> first failure
+	failed := map[string]failure{}    // "tpl|method|class" -> first failure of that cell (matrix)
+	optFailed := map[string]failure{} // the same for the OPTIONS probes on routes without OPTIONS
+	condemned := map[string]bool{}    // route|method with a confirmed no-answer witness
 	addFail := func(f failure) {
-		if failed[f.rule] == nil {
-			failed[f.rule] = map[string]failure{}
+		m := failed
+		if f.rule == "cors-options-bypass" {
+			m = optFailed
 		}
 		k := f.tpl + "|" + f.method + "|" + f.class
-		if _, dup := failed[f.rule][k]; !dup {
-			failed[f.rule][k] = f
+		if _, dup := m[k]; !dup {
+			m[k] = f
 		}
 	}
 	evalUnauth := func(t *target, hc hdrClass, cb combo, method string, registered bool) {
@@ -733,8 +744,15 @@ func runInstance(c *run.Ctx, bin string, cfg instCfg, flt *filter, st *stats, ro
 		}
 		spec := reqSpec{cfg.Mode, cfg.Name, t.r.Template, method, hc.Name, cb.Name, hc.Values, u}
 		c.Case(fmt.Sprintf("%s|%s|%s|%s|%s", cfg.Mode, t.r.Template, method, hc.Name, cb.Name))
+		rk := t.r.Template + "|" + method
+		to := 15 * time.Second
+		if hung[t.r.Template+"|"+t.method] || condemned[rk] {
+			// the handler of this route is known not to answer (authorized phase): if the request
+			// got through, waiting long would tell nothing more
+			to = 3 * time.Second
+		}
 		before := in.srv.Seq()
-		a := in.send(method, u, hc.Values, cb, ct, body, extra, 15*time.Second)
+		a := in.send(method, u, hc.Values, cb, ct, body, extra, to)
 		st.requests++
 		mk := func(rule, desc string) failure {
 			return failure{t.r.Template, method, hc.Name, rule, desc, map[string]any{"request": spec, "answer": a,
@@ -745,17 +763,34 @@ func runInstance(c *run.Ctx, bin string, cfg instCfg, flt *filter, st *stats, ro
 			if !in.alive() {
 				return // reported by the caller through died()
 			}
-			// no answer: repeat in isolation; a verdict only if it never answers
+			if condemned[rk] {
+				addFail(mk("no-answer", what+" got no HTTP answer ("+short(a.Err, 120)+"), like the earlier confirmed witnesses on this route"))
+				return
+			}
+			// No answer. Not a wall-clock verdict: repeat three times, each time preceded by a
+			// control request on the same route that the auth layer must refuse; the witness
+			// stands only if the control is answered every time and the cell never is.
+			ctl := cls[0]
+			if hc.Name == ctl.Name {
+				ctl = cls[1]
+			}
 			n := 0
 			for i := 0; i < 3; i++ {
 				in.quiesce()
-				if b := in.send(method, u, hc.Values, cb, ct, body, extra, 15*time.Second); b.Err != "" {
+				k := in.send(method, u, ctl.Values, cb, ct, body, extra, to)
+				st.requests++
+				if k.Err != "" {
+					break // the server does not answer anything: undecided
+				}
+				if b := in.send(method, u, hc.Values, cb, ct, body, extra, to); b.Err != "" {
 					n++
 				}
 				st.requests++
 			}
 			if n == 3 && in.alive() {
-				addFail(mk("no-answer", what+" got no HTTP answer 4 times in a row ("+short(a.Err, 120)+") although the process is alive"))
+				condemned[rk] = true
+				addFail(mk("no-answer", what+" got no HTTP answer 4 times in a row ("+short(a.Err, 120)+
+					") while a control request on the same route was answered each time: the request passed the auth layer"))
 			} else {
 				c.Undecided("transient transport error")
 			}
@@ -769,38 +804,51 @@ func runInstance(c *run.Ctx, bin string, cfg instCfg, flt *filter, st *stats, ro
 			okStatus = okStatus || a.Status == 400 || a.Status == 404 || a.Status == 405
 			c.Cover("status_options_probe", fmt.Sprintf("%s/%d", cfg.Mode, a.Status), 1)
 		}
-		if !okStatus {
-			rule := fmt.Sprintf("status-%d", a.Status)
-			if !registered {
-				rule = fmt.Sprintf("cors-options-bypass-%d", a.Status)
-			}
-			addFail(mk(rule, fmt.Sprintf("%s was answered %d %q, expected 401%s", what, a.Status, short(a.Body, 80),
-				map[bool]string{true: " (or 400: malformed header)", false: ""}[hc.Malformed])))
-		}
 		if a.BadGzip {
 			c.Undecided("undecodable gzip body")
 		}
-		if t.ref != "" && strings.Contains(a.Body, t.ref) {
-			addFail(mk("handler-body", fmt.Sprintf("%s: the %d answer carries the handler's body %q", what, a.Status, short(a.Body, 100))))
+		handlerBody := t.ref != "" && strings.Contains(a.Body, t.ref)
+		qs := in.srv.Interactions(before)
+		st.unauthQueries += len(qs)
+		evidence := ""
+		if handlerBody {
+			evidence += "; the answer carries the handler's body"
 		}
-		if qs := in.srv.Interactions(before); len(qs) > 0 {
-			// background activity must not cause an alarm: reproduce three more times in isolation
-			st.unauthQueries += len(qs)
+		if len(qs) > 0 {
+			evidence += fmt.Sprintf("; %d database interaction(s) during the request, first: %s %q", len(qs), qs[0].Lib, short(qs[0].Body, 100))
+		}
+		switch {
+		case !okStatus:
+			rule := "not-rejected"
+			if a.Status == 400 && strings.Contains(a.Body, authErr400) {
+				rule = "status-400-for-wellformed-header"
+			}
+			if !registered {
+				rule = "cors-options-bypass"
+			}
+			f := mk(rule, fmt.Sprintf("%s was answered %d %q, expected 401%s%s", what, a.Status, short(a.Body, 80),
+				map[bool]string{true: " (or 400: malformed header)", false: ""}[hc.Malformed], evidence))
+			if len(qs) > 0 {
+				f.replay.(map[string]any)["interactions"] = qs
+			}
+			addFail(f)
+		case handlerBody:
+			addFail(mk("handler-body", fmt.Sprintf("%s: status %d, but %q%s", what, a.Status, short(a.Body, 100), evidence)))
+		case len(qs) > 0:
+			// the only evidence is the interaction log, and background activity must not cause an
+			// alarm: reproduce three more times in isolation
 			rep := 0
-			var last []chtcp.Event
 			for i := 0; i < 3; i++ {
 				in.quiesce()
 				b0 := in.srv.Seq()
-				in.send(method, u, hc.Values, cb, ct, body, extra, 15*time.Second)
+				in.send(method, u, hc.Values, cb, ct, body, extra, to)
 				st.requests++
 				if q2 := in.srv.Interactions(b0); len(q2) > 0 {
 					rep++
-					last = q2
 				}
 			}
 			if rep == 3 {
-				f := mk("db-interaction", fmt.Sprintf("%s caused a database interaction every time (4 of 4): %s %q",
-					what, last[0].Lib, short(last[0].Body, 120)))
+				f := mk("db-interaction", fmt.Sprintf("%s was answered %d but caused a database interaction every time (4 of 4)%s", what, a.Status, evidence))
 				f.replay.(map[string]any)["interactions"] = qs
 				addFail(f)
 			} else {
@@ -864,63 +912,107 @@ func runInstance(c *run.Ctx, bin string, cfg instCfg, flt *filter, st *stats, ro
 	for _, f := range fails {
 		c.Violation(fmt.Sprintf("route=%s/method=%s/header=right/%s", f.tpl, f.method, f.rule), f.desc, f.replay)
 	}
-	nTargets, nClasses := len(targets), len(cls)
-	rules := []string{}
-	for r := range failed {
-		rules = append(rules, r)
+	reportGrouped(c, tag, failed, optFailed, flt == nil, len(targets), len(cls), nRoutes)
+	c.Cover("unauth_cells", tag, cells)
+	return true
+}
+
+// reportGrouped turns the failed cells of one instance into violations, one per root cause:
+// everything failed -> the auth layer is absent; a header class failed on every route -> the
+// auth layer accepts that header; a route failed for every class -> the route is outside the
+// auth layer; the rest one by one. Signatures carry no instance name, so that the same defect
+// seen through writer and reader is one finding.
+func reportGrouped(c *run.Ctx, tag string, failed, optFailed map[string]failure, group bool, nTargets, nClasses, nRoutes int) {
+	majority := func(ks []string, m map[string]failure) string {
+		n := map[string]int{}
+		for _, k := range ks {
+			n[m[k].rule]++
+		}
+		best := ""
+		for _, r := range sortedKeys(n) {
+			if best == "" || n[r] > n[best] {
+				best = r
+			}
+		}
+		return best
 	}
-	sort.Strings(rules)
-	for _, rule := range rules {
-		m := failed[rule]
+	one := func(m map[string]failure, nT int) {
+		keys := sortedKeys(m)
+		if len(keys) == 0 {
+			return
+		}
+		reported := map[string]bool{}
+		if group && len(keys) == nT*nClasses && len(keys) >= 4 {
+			f := m[keys[0]]
+			c.Violation("route=*/method=*/header=*/"+majority(keys, m),
+				fmt.Sprintf("every walked route of %s answers every one of the %d bad Authorization values as if it were right (%d cells); first witness: %s",
+					tag, nClasses, len(keys), f.desc), f.replay)
+			return
+		}
 		byClass := map[string][]string{}
 		byRoute := map[string][]string{}
-		for k, f := range m {
+		for _, k := range keys {
+			f := m[k]
 			byClass[f.class] = append(byClass[f.class], k)
 			byRoute[f.tpl+"|"+f.method] = append(byRoute[f.tpl+"|"+f.method], k)
 		}
-		reported := map[string]bool{}
-		isOptions := strings.HasPrefix(rule, "cors-options-bypass")
-		// a route that fails for every header class: the route is outside the auth layer
-		rks := sortedKeys(byRoute)
-		for _, rk := range rks {
-			ks := byRoute[rk]
-			if flt == nil && !isOptions && len(ks) == nClasses && nClasses >= 2 {
-				sort.Strings(ks)
+		for _, cl := range sortedKeys(byClass) {
+			ks := byClass[cl]
+			if group && len(ks) == nT && len(ks) >= 2 {
 				f := m[ks[0]]
-				c.Violation(fmt.Sprintf("route=%s/method=%s/header=*/%s", f.tpl, f.method, rule),
+				c.Violation(fmt.Sprintf("route=*/method=*/header=%s/%s", cl, majority(ks, m)),
+					fmt.Sprintf("on all %d walked route x method pairs of %s; first witness: %s", len(ks), tag, f.desc), f.replay)
+				for _, k := range ks {
+					reported[k] = true
+				}
+			}
+		}
+		for _, rk := range sortedKeys(byRoute) {
+			ks := byRoute[rk]
+			left := 0
+			for _, k := range ks {
+				if !reported[k] {
+					left++
+				}
+			}
+			if group && len(ks) == nClasses && nClasses >= 2 && left > 0 {
+				f := m[ks[0]]
+				c.Violation(fmt.Sprintf("route=%s/method=%s/header=*/%s", f.tpl, f.method, majority(ks, m)),
 					fmt.Sprintf("every one of the %d bad Authorization values reaches this route; first witness: %s", nClasses, f.desc), f.replay)
 				for _, k := range ks {
 					reported[k] = true
 				}
 			}
 		}
-		// a header class that fails on every route: the auth layer itself accepts it
-		for _, cl := range sortedKeys(byClass) {
-			ks := byClass[cl]
-			all := len(ks) == nTargets
-			if isOptions {
-				all = len(ks) == nRoutes
+		for _, k := range keys {
+			if !reported[k] {
+				f := m[k]
+				c.Violation(fmt.Sprintf("route=%s/method=%s/header=%s/%s", f.tpl, f.method, f.class, f.rule), f.desc, f.replay)
 			}
-			if flt == nil && all && len(ks) >= 2 {
-				sort.Strings(ks)
-				f := m[ks[0]]
-				c.Violation(fmt.Sprintf("route=*/method=*/header=%s/%s", cl, rule),
-					fmt.Sprintf("on all %d walked routes of %s; first witness: %s", len(ks), tag, f.desc), f.replay)
-				for _, k := range ks {
-					reported[k] = true
+		}
+	}
+	one(failed, nTargets)
+	// OPTIONS probes: two header classes per route, one probe method
+	if keys := sortedKeys(optFailed); len(keys) > 0 {
+		routes := map[string]bool{}
+		for _, k := range keys {
+			routes[optFailed[k].tpl] = true
+		}
+		if group && len(routes) == nRoutes && nRoutes >= 2 {
+			f := optFailed[keys[0]]
+			c.Violation("route=*/method=OPTIONS/header=*/cors-options-bypass",
+				fmt.Sprintf("an OPTIONS request without credentials is served on all %d routes of %s; first witness: %s", nRoutes, tag, f.desc), f.replay)
+		} else {
+			seen := map[string]bool{}
+			for _, k := range keys {
+				f := optFailed[k]
+				if !seen[f.tpl] {
+					seen[f.tpl] = true
+					c.Violation(fmt.Sprintf("route=%s/method=OPTIONS/header=%s/cors-options-bypass", f.tpl, f.class), f.desc, f.replay)
 				}
 			}
 		}
-		for _, k := range sortedKeys(m) {
-			if reported[k] {
-				continue
-			}
-			f := m[k]
-			c.Violation(fmt.Sprintf("route=%s/method=%s/header=%s/%s", f.tpl, f.method, f.class, rule), f.desc, f.replay)
-		}
 	}
-	c.Cover("unauth_cells", tag, cells)
-	return true
 }
 
 func sortedKeys[V any](m map[string]V) []string {
